@@ -357,7 +357,7 @@ func main() {
 		"(b) typed expression switches (differential only) over bool, every integer kind, floats, complex, string, rune, interface{}, arrays and structs, executed once for every value of a pool, whose case lists mix distinct constants with non-constant expressions (variables, calls that log their evaluation) drawn from the same pool - so a non-constant case often equals an earlier or a LATER constant case -, default anywhere, fallthrough, break/continue, tag also computed by a logging call or an init statement. "+
 		"Also generated (differential only): range with '=' into outer variables (slice/array/string, also through a closure), select (value, ok) receives from closed channels, go statements with array/struct arguments modified after the go statement. "+
 		"While a recorded defect (goto to a function-top-level label; range key used as loop counter; select send of an untyped constant; range-string '=' into an outer variable; select ok on a closed channel; go arguments not copied) is present on the tree its exact input is replayed first and the generators avoid that input class.")
-	wd := vh.NewWatchdog(rep, 60*time.Second)
+	wd := vh.NewWatchdog(rep, 180*time.Second)
 
 	maxDepth, nprog, nfocus, perShard := 5, 360, 100, 45
 	if a.Thorough() {
